@@ -701,6 +701,12 @@ func (w *World) checkFinalize(bi *BlockInfo, txi int, t *bitcointypes.MsgFinaliz
 			w.violate("C05", "second-terminal-outcome", "paid-after-terminal", "height %d: withdrawal %d paid although it already had a terminal outcome", b.Height, id)
 		}
 		m.Paid[id] = true
+		// C05: what is recorded (and reported) for a paid withdrawal is the proven transaction's output for it
+		if cw := w.M.Cur.Wd[id]; cw != nil && cw.Receipt != nil && i < len(cand.Values) {
+			if !bytes.Equal(cw.Receipt.Txid, t.Txid) || cw.Receipt.Amount != cand.Values[i] || cw.Receipt.Txout != uint32(i) {
+				w.violate("C05", "paid-receipt-not-of-proven-transaction", "receipt", "height %d: withdrawal %d was paid by %x output %d (%d satoshi, candidate %d of %d) but is recorded as paid by %x output %d with %d satoshi", b.Height, id, t.Txid[:6], i, cand.Values[i], ci, len(pm.Cands), cw.Receipt.Txid, cw.Receipt.Txout, cw.Receipt.Amount)
+			}
+		}
 		if i < len(cand.Values) {
 			amt := new(big.Int).Mul(new(big.Int).SetUint64(cand.Values[i]), sat)
 			w.M.Owed.owe("paid", fmt.Sprintf("%d:%x:%d:%s", id, t.Txid, i, amt), "withdrawal paid", b.Height)
